@@ -773,3 +773,12 @@ spec!(
     forms(p, v): [p.push(v), p.push(v.clone()), p.push(v.as_slice()), p.push(PushIter(v.iter()))],
     reserve(rp, vs): [],
 );
+
+spec!(
+    ColsCodec, "ColumnsRegion<CodecRegion<DictionaryCodec>>", ColumnsRegion<CodecRegion<DictionaryCodec>>,
+    clone: no, serde: no, heap: yes, resreg: yes, copy: yes, debug: yes,
+    dense: yes, collapse_top: no, presize: no, plain: no,
+    byref(x): x.iter().map(|c| c.as_slice()).collect::<Vec<&[u8]>>(),
+    forms(p, v): [p.push(v.iter().map(|c| c.as_slice()).collect::<Vec<&[u8]>>()), p.push(PushIter(v.iter().map(|c| c.as_slice())))],
+    reserve(rp, vs): [],
+);
